@@ -42,7 +42,7 @@ def floors(tier):
     return {"cls:feature_interaction_query": 300, "distinct_nontrivial": 200, "re:ForAll(@.*)?\\.enter": 1000, "cls:U>=2": 1000, "cls:cond:compound": 500,
             "cls:cond:or": 200, "cls:cond:and": 200, "cls:cond:not": 100, "cls:mentions:both": 300,
             "cls:mentions:universal_only": 30, "cls:mentions:free_only": 30, "cls:extra:first": 100,
-            "cls:extra:second": 100, "cls:u_expr": 100, "cls:u_restricted_entity": 300, "cls:free_variable_not_selected": 300, "cls:u_scalar_attribute_with_zero": 200, "cls:u_correlated_subquery": 300, "cls:u_flatten_of_plain_numbers": 200, "re:cls:condition_mentions_a_flattened_element:.*": 150, "cls:caching_off": 200, "cls:nfree=2": 200, "cls:nfree=3": 50}
+            "cls:extra:second": 100, "cls:u_expr": 100, "cls:u_restricted_entity": 300, "cls:free_variable_not_selected": 300, "cls:u_scalar_attribute_with_zero": 200, "cls:u_correlated_subquery": 300, "cls:u_flatten_of_plain_numbers": 200, "re:cls:universal_domain_of_40_to_60_values:.*": 240, "re:cls:condition_mentions_a_flattened_element:.*": 150, "cls:caching_off": 200, "cls:nfree=2": 200, "cls:nfree=3": 50}
 
 
 def gen_corr_case(rng):
@@ -82,8 +82,70 @@ def gen_flatprim_case(rng):
                          "limits": rng.sample(range(-1, 5), rng.randint(1, 3)), "where": rng.choice(["before", "after", "none", "elem_before"])}}
 
 
+def gen_big_case(rng):
+    """SIZE: 40-60 universal values and 20-36 free bindings (more than a thousand condition evaluations per for_all), the statement
+    alone, and_-combined, or as two alternatives of an or_; evaluated twice"""
+    nu, nx = rng.randint(40, 60), rng.randint(24, 36)
+    us = [[rng.randint(3, 9), rng.randint(1, 7)] for _ in range(nu)]
+    # (most free bindings satisfy the first statement, so that it is checked against every universal value for them: well over a
+    #  thousand condition evaluations go through one operator)
+    xs = [[rng.randint(1, 2) if rng.random() < 0.8 else rng.randint(3, 9), rng.randint(1, 9)] for _ in range(nx)]
+    return {"big": {"us": us, "xs": xs, "op1": rng.choice([">=", ">", "!="]), "op2": rng.choice(["<=", "<", "!="]),
+                    "shape": rng.choice(["single", "and_after", "and_before", "or_two", "or_two"]), "k": rng.randint(2, 6)},
+            "world": {"P": [], "Q": []}, "kinds": ["P", "Q"], "cond": None, "extra": None, "extra_first": True, "u_expr": False,
+            "caching": rng.random() < 0.8}
+
+
+def _big(case, caching, times=2):
+    from entity_query_language import symbolic_mode, an, entity, and_, or_, for_all, let
+    from entity_query_language.cache_data import enable_caching, disable_caching
+    b = case["big"]
+    us = [D.P(a=a, b=b_) for a, b_ in b["us"]]
+    xs = [D.Q(a=a, b=b_) for a, b_ in b["xs"]]
+    o1, o2 = C.OPS[b["op1"]], C.OPS[b["op2"]]
+    f1 = lambda x: all(o1(u.a, x.a) for u in us)
+    f2 = lambda x: all(o2(u.b, x.b) for u in us)
+    holds = {"single": f1, "and_after": lambda x: f1(x) and x.b >= b["k"], "and_before": lambda x: x.b >= b["k"] and f1(x),
+             "or_two": lambda x: f1(x) or f2(x)}[b["shape"]]
+    exp = sorted(i for i, x in enumerate(xs) if holds(x))
+    (enable_caching if caching else disable_caching)()
+    try:
+        with symbolic_mode():
+            u = let(D.P, us)
+            x = let(D.Q, xs)
+            fa1 = for_all(u, o1(u.a, x.a))
+            cond = {"single": lambda: fa1, "and_after": lambda: and_(fa1, x.b >= b["k"]), "and_before": lambda: and_(x.b >= b["k"], fa1),
+                    "or_two": lambda: or_(fa1, for_all(u, o2(u.b, x.b)))}[b["shape"]]()
+            q = an(entity(x, cond))
+        idx = {id(o): i for i, o in enumerate(xs)}
+        return [sorted(idx.get(id(r), -1) for r in q.evaluate()) for _ in range(times)], exp
+    finally:
+        enable_caching()
+
+
+def check_big_case(case, ctx):
+    ctx.cls("cls:universal_domain_of_40_to_60_values:" + case["big"]["shape"])
+    ctx.cls("cls:caching_on" if case["caching"] else "cls:caching_off")
+    try:
+        gots, exp = _big(case, case["caching"])
+    except Exception as ex:
+        ctx.fail("EXC", f"{type(ex).__name__}: {ex}")
+        return
+    if 0 < len(exp) < len(case["big"]["xs"]):
+        ctx.nontrivial()
+    for n, got in enumerate(gots):
+        if got != exp:
+            ctx.fail("SET:" + ("missing" if set(exp) - set(got) else "") + ("+extra" if set(got) - set(exp) else ""),
+                     {"big_universal": {k: v for k, v in case["big"].items() if k not in ("us", "xs")}, "evaluation": n + 1,
+                      "missing": sorted(set(exp) - set(got))[:8], "extra": sorted(set(got) - set(exp))[:8]})
+            break
+    ctx.sample({"big_universal": case["big"]["shape"], "expected": exp[:5]})
+
+
 def gen_case(rng):
     r0 = rng.random()
+    if r0 < 0.02:
+        return gen_big_case(rng)
     if r0 < 0.1:
         return gen_corr_case(rng)
     if r0 < 0.17:
@@ -228,6 +290,9 @@ def run(case, world, caching, times=1, perm=None):
 
 
 def run_for_c05(case, caching, times):
+    if case.get("big"):
+        gots, exp = _big(case, caching, times)
+        return gots, exp, True
     if case.get("flatprim"):
         gots, exp, _, _ = _flatprim(case, caching, times)
         return gots, exp, True
@@ -339,6 +404,8 @@ def check_case(case, ctx):
     if "ix" in case:
         from .. import ix
         return ix.check(case["ix"], ctx)
+    if case.get("big"):
+        return check_big_case(case, ctx)
     if case.get("flatprim"):
         return check_flatprim_case(case, ctx)
     if case.get("corr"):
@@ -400,7 +467,7 @@ def classify(f, ctx):
     if "ix" in f.get("case", {}):
         return None
     case = f["case"]
-    if case.get("flatprim"):
+    if case.get("flatprim") or case.get("big"):
         return None
     world = D.build_world(case["world"])
     exp = expected(case, world)
